@@ -170,6 +170,41 @@ def main():
         if np.abs(Rsum + total).max() > 1e-8 * (1 + np.abs(total).max()):
             res.fail("reactions balance", f"{et}: reactions on the clamped boundary sum to {Rsum.tolist()}, applied load {total.tolist()}", dict(elemType=et))
 
+    # ---------------- reactions of every problem of the simulation types that solve several or another kind of problem ----------------
+    for simk in ("PhaseField", "Thermal"):      # Calc_Reaction states NotImplementedError for Newton simulations
+        for et in ["TRI3", "QUAD4"]:
+            mesh = M.mesh_2d(et, 2.0, 1.0, 1.0)        # coarse: the displacement dofs of the clamped nodes lie beyond Nn
+            left = mesh.Nodes_Conditions(lambda x, y, z: x == 0)
+            right = mesh.Nodes_Conditions(lambda x, y, z: x == 2.0)
+            identr = dict(sim=simk, elemType=et, Nn=int(mesh.Nn))
+            res.case((simk, et, "reactions"))
+            try:
+                if simk == "PhaseField":
+                    sr = Simulations.PhaseField(mesh, Models.PhaseField(Models.Elastic.Isotropic(2, E=8.0, v=0.25, planeStress=True, thickness=1.0), "Bourdin", "AT2", 50.0, 0.5))
+                    pt, unk, ncomp = sr.ProblemTypes.elastic, ["x", "y"], 2
+                elif simk == "Thermal":
+                    sr = Simulations.Thermal(mesh, Models.Thermal(2.0, 1.0))
+                    pt, unk, ncomp = sr.problemType, ["t"], 1
+                else:
+                    sr = Simulations.HyperElastic(mesh, Models.HyperElastic.SaintVenantKirchhoff(2, 4.0, 4.0))
+                    pt, unk, ncomp = sr.problemType, ["x", "y"], 2
+                sr.add_dirichlet(left, [0.0] * ncomp, unk, pt)
+                loadr = [dy(rng, 1, 2) / (100 if simk == "HyperElastic" else 1) for _ in range(ncomp)]
+                sr.add_lineLoad(right, loadr, unk, pt)
+                sr.Solve()
+                totalr = np.asarray(sr.Bc_vector_Neumann(pt)).reshape(-1, ncomp).sum(0)
+                dofsr = sr.Bc_dofs_nodes(left, unk, pt)
+                Rr = np.asarray(sr.Calc_Reaction(dofsr, pt))
+                if Rr.shape != np.asarray(dofsr).shape:
+                    res.fail(f"reactions sim={simk}", f"Calc_Reaction returns {Rr.shape[0]} values for {len(dofsr)} requested dofs", identr)
+                    continue
+                Rs = np.array([Rr[np.where(np.asarray(dofsr) % ncomp == k)[0]].sum() for k in range(ncomp)])
+                tolr = 1e-8 if simk != "HyperElastic" else 1e-6
+                if np.abs(Rs + totalr).max() > tolr * (1 + np.abs(totalr).max()):
+                    res.fail(f"reactions sim={simk}", f"reactions on the clamped boundary sum to {Rs.tolist()}, applied load {totalr.tolist()}", identr)
+            except Exception as ex:  # noqa: BLE001
+                res.fail(f"reactions raise sim={simk}", f"{type(ex).__name__}: {str(ex)[:150]}", identr)
+
     # ---------------- reactions under every time scheme: K u + C v + M a on the constrained rows, arbitrary (u, v, a) ----------------
     from EasyFEA import AlgoType as _Algo
     for et in (["QUAD4"] if args.tier == "quick" else ["TRI3", "QUAD4", "HEXA8"]):
